@@ -1,5 +1,5 @@
 (* Property C09 - axes follow first appearance of population labels; only listed samples count. *)
-From Sfs Require Import Index ArrayM Scalar Spectrum Project Create SampleParse Npy Text Container IndexP ArrayP BinomP ProjectP CreateP CreateSpecP SampleParseP ContainerP.
+From Sfs Require Import Index ArrayM Scalar Spectrum Project Create SampleParse Npy Text Container IndexP ArrayP BinomP ProjectP CreateP CreateSpecP SampleParseP SampleParseGenP ContainerP.
 From Coq Require Import Permutation.
 Close Scope string_scope.
 
@@ -104,6 +104,25 @@ Theorem C09_samples_file_crlf : forall l,
   parse_samples_file (flat_map (fun e => render_entry 9 e ++ [13; 10]) l) = l.
 Proof. exact (@parse_file_crlf). Qed.
 Print Assumptions C09_samples_file_crlf.
+
+(* the inline entry is split at its FIRST '=': labels may contain '=' (anything but ',') *)
+Theorem C09_inline_list_roundtrip_labels_with_equals : forall l,
+  l <> [] -> Forall entry_inline_ok l -> parse_samples_inline (render_inline l) = l.
+Proof. exact (@parse_render_inline_gen). Qed.
+Print Assumptions C09_inline_list_roundtrip_labels_with_equals.
+
+(* the file line is split at its FIRST tab: labels may contain spaces, '=', ',' and tabs *)
+Theorem C09_samples_file_roundtrip_any_label : forall l,
+  Forall entry_file_ok l -> parse_samples_file (render_file l) = l.
+Proof. exact (@parse_render_file_gen). Qed.
+Print Assumptions C09_samples_file_roundtrip_any_label.
+
+(* the two syntaxes build the same map whenever the content can be written in both *)
+Theorem C09_samples_file_equals_inline_general : forall l,
+  l <> [] -> Forall entry_inline_ok l -> Forall entry_file_ok l ->
+  build_map (parse_samples_file (render_file l)) = build_map (parse_samples_inline (render_inline l)).
+Proof. exact (@file_equiv_inline_gen). Qed.
+Print Assumptions C09_samples_file_equals_inline_general.
 
 (* an empty list is an error *)
 Theorem C09_empty_list_is_error : forall cols p,
